@@ -410,7 +410,7 @@ static int read_cmd_char(struct cat_object *self)
 {
         assert(self != NULL);
 
-        if (self->io->read(&self->current_char) == 0)
+        if (self->io->read(&self->current_char) != 1)
                 return 0;
 
         if (self->state != CAT_STATE_PARSE_COMMAND_ARGS)
